@@ -171,7 +171,7 @@ pub fn spec_for(prop: &str) -> Option<CheckSpec> {
             rule: "one case = (sequence of <= 12 builder calls with in-place edits and markup-heavy payloads; a tag starts as BytesStart::new, BytesStart::from_content (owned/borrowed), a Start event handed out by a Reader, or template.borrow(); indentation or none, pipe capacity, per-call accepted lengths, write/read Pending patterns, reader piece sizes, executor choice stream, optional write-error point); the sync writer is also run over a sink that accepts a few bytes per write / native write_vectored call with Interrupted in between (bytes must equal the Vec output); writer task and reader task run interleaved over the simulated pipe; distinct = Plan hash; non-trivial = the reader task found the pipe empty while the writer was not finished (an event was only partly delivered) AND at least one short write or back-pressure Pending occurred, or a write error was injected",
             assumptions: vec![
                 "preconditions of the constructors are enforced by predicates on the final strings (names legal, PI without '?>', comment without '--', doctype non-empty/balanced, CDATA::new without ']]>')",
-                "read-back equality is checked without indentation only; with indentation only byte equality async == sync is checked (that part of C19 lives in the async copy of the writer table)",
+                "with indentation the read-back comparison takes the blanks out of every text run on both sides (indentation only ever adds blanks to character data; which blanks exactly is C19, a pure function of the event sequence); byte equality async == sync is checked with and without indentation",
                 "reader side runs with end-name checks off and unmatched ends allowed because sequences need not be balanced",
             ],
             real: vec![
